@@ -50,7 +50,7 @@ func c03ManyEdits(r *lib.Rng, data []byte) ([]byte, string) {
 	nb := (len(out) + lib.BS - 1) / lib.BS
 	edits := 0
 	for b := 0; b < nb; b++ {
-		if !r.Chance(2, 5) {
+		if !r.Chance(1, 2) {
 			continue
 		}
 		lo, hi := b*lib.BS, (b+1)*lib.BS
@@ -142,6 +142,38 @@ func c03Pair(r *lib.Rng, class string, maxBlocks int) (*lib.Build, *lib.Build, [
 	bigOld := r.Bytes(blocks(maxBlocks/2, maxBlocks))
 	bigNew, how := c03ManyEdits(r, bigOld)
 	put(pfx()+"big.bin", bigOld, bigNew, "manyedits("+how+")")
+	// a file built from a small alphabet of blocks, so that equal content sits at different
+	// offsets of the old and the new file (a reader or writer resumed at a wrong offset then
+	// sees plausible data instead of noise)
+	{
+		alpha := [][]byte{r.Bytes(lib.BS), r.Bytes(lib.BS), r.Bytes(lib.BS)}
+		nb := r.Range(maxBlocks/2, maxBlocks)
+		var o, n []byte
+		letters := make([]int, nb)
+		for i := 0; i < nb; i++ {
+			letters[i] = r.Intn(2)
+			o = append(o, alpha[letters[i]]...)
+		}
+		for i := 0; i < nb+r.Intn(3)-1; i++ {
+			switch {
+			case i < nb && r.Chance(2, 5):
+				n = append(n, alpha[letters[i]]...) // unchanged in place
+			case i < nb && r.Chance(5, 6):
+				n = append(n, alpha[1-letters[i]]...) // the other letter: equal to old blocks elsewhere
+			default:
+				n = append(n, alpha[2]...)
+			}
+		}
+		o = append(o, r.Bytes(r.Intn(3)*r.Intn(lib.BS))...)
+		n = append(n, r.Bytes(r.Intn(3)*r.Intn(lib.BS))...)
+		h := "block alphabet"
+		if r.Chance(1, 3) {
+			var h2 string
+			n, h2 = c03ManyEdits(r, n)
+			h += ", " + h2
+		}
+		put(pfx()+"rep.bin", o, n, "manyedits("+h+")")
+	}
 	olds := [][]byte{bigOld}
 	if r.Chance(1, 2) {
 		o2 := r.Bytes(blocks(2, 4))
@@ -597,9 +629,9 @@ func (cfg *c03Config) run(r *lib.Rng) (res c03Result) {
 
 	// which checkpoints to resume from
 	var ks []int
-	maxK := 10
+	maxK := 8
 	if cfg.opt {
-		maxK = 5 // every brand-new patcher that meets a bsdiff series allocates a 32 MiB cache: ~0.1 s
+		maxK = 4 // every brand-new patcher that meets a bsdiff series allocates a 32 MiB cache: ~0.1 s
 	}
 	if cfg.thorough {
 		maxK = n
@@ -810,7 +842,15 @@ func runC03(c *Ctx) error {
 	// Time only, not semantics.
 	defer debug.SetGCPercent(debug.SetGCPercent(-1))
 	r := c.Rng.Fork()
-	npairs := c.N(2, 24)
+	// the search tier (after a disagreement with the model) re-runs at quick depth with other
+	// seeds: a thorough-sized search would take hours
+	thorough := c.Tier == "thorough"
+	npairs := 2
+	if thorough {
+		npairs = 24
+	} else if c.Tier == "search" {
+		npairs = 3
+	}
 	type job struct {
 		cfg  *c03Config
 		rng  *lib.Rng
@@ -827,12 +867,13 @@ func runC03(c *Ctx) error {
 		if pi%2 == 1 {
 			class = "genpair"
 		}
-		maxBlocks := 12
-		if c.Thorough() {
+		maxBlocks := 14
+		if thorough {
 			maxBlocks = []int{8, 12, 16, 32}[pi%4]
 		}
 		old, nw, rel := c03Pair(pr, class, maxBlocks)
 		base := filepath.Join(c.Tmp, fmt.Sprintf("c03-%d", pi))
+		os.RemoveAll(base)
 		oldDir, newDir := filepath.Join(base, "old"), filepath.Join(base, "new")
 		if err := old.WriteTo(oldDir); err != nil {
 			return err
@@ -886,7 +927,7 @@ func runC03(c *Ctx) error {
 					}
 					jobs = append(jobs, &job{cls: name, rng: pr.Fork(),
 						cfg: &c03Config{name: name, patch: patch, pi: info, overlay: ov, comp: comp, opt: kind == "opt", old: old, nw: nw, oldDir: oldDir,
-							base: filepath.Join(base, strings.ReplaceAll(name, "/", "-")), thorough: c.Thorough()},
+							base: filepath.Join(base, strings.ReplaceAll(name, "/", "-")), thorough: thorough},
 						in: map[string]interface{}{"pair": pi, "pairClass": class, "relations": rel, "old": old.Summary(), "new": nw.Summary(),
 							"patch": kind, "bowl": bw, "compression": comp.String(), "bsdiffSeries": nbs, "series": len(info.Series)}})
 				}
